@@ -108,11 +108,14 @@ def generate(seed: int, tier: str) -> Dict[str, Any]:
     if r.chance(0.3):
         # the logical clock handed over as ctx.now_ms only (ctx.now unset), the way run_smoke_turn builds its context
         as_float = r.chance(0.4)
+        as_fn = (not as_float) and r.chance(0.3)
         for o in ops:
             if o["op"] == "turn":
                 o["with_now"] = False
                 if as_float:
                     o["now_ms_float"] = True
+                if as_fn:
+                    o["now_ms_const_fn"] = True
     if r.chance(0.3):
         # fresh process in the middle of the sequence: state comes back from the snapshot directory (E5 varies the order in
         # which that directory is enumerated; tied time stamps are what a restore from backup / checkout leaves behind)
